@@ -235,3 +235,64 @@ def _eq(a, b, tol):
 
 def model_layout(mj):
     return driver().call({"op": "layout", "model": strip(mj)})
+
+
+# ======================================================================================
+# canary (DESIGN section 8): the comparison machinery must flag a deliberately wrong answer
+# ======================================================================================
+CANARY_MODEL = {
+    "n_periods": 2,
+    "states": [["s", {"k": "disc", "n": 3}], ["w", {"k": "lin", "a": "0", "b": "2", "n": 3}]],
+    "choices": [["d", {"k": "disc", "n": 2}], ["c", {"k": "lin", "a": "0", "b": "1", "n": 2}]],
+    "functions": [
+        {"name": "utility", "args": ["s", "d", "c", "w"], "body": ["add", ["add", ["mul", ["num", "10"], ["var", "s"]], ["var", "d"]], ["sub", ["mul", ["num", "2"], ["var", "c"]], ["var", "w"]]], "stochastic": False, "ints": False},
+        {"name": "next_s", "args": ["s"], "body": ["max", ["var", "s"], ["num", "1"]], "stochastic": False, "ints": True},
+        {"name": "next_w", "args": ["w", "c"], "body": ["sub", ["var", "w"], ["var", "c"]], "stochastic": False, "ints": False},
+        {"name": "c_constraint", "args": ["c", "w"], "body": ["le", ["var", "c"], ["var", "w"]], "stochastic": False, "ints": False},
+        {"name": "p_filter", "args": ["s", "_period"], "body": ["or", ["not", ["eq", ["var", "s"], ["num", "0"]]], ["not", ["eq", ["var", "_period"], ["num", "1"]]]], "stochastic": False, "ints": True},
+    ],
+}
+
+
+def canary():
+    """Returns a list of failures (empty = the comparison code flags what it must flag)."""
+    import copy
+
+    I = impl()
+    fails = []
+    mj = CANARY_MODEL
+    P = {"beta": Fr(1, 2), "funcs": {f["name"]: {} for f in mj["functions"]}, "shocks": {}}
+    Vm = model_solve(mj, P)
+    Vi, _ = impl_solve(mj, P, jit=False)
+    d0, _ = compare_value_arrays(Vi, Vm, 2)
+    if d0:
+        return []  # the tree under test differs from the model here: the regular cases report it; nothing to self-test
+    bad = copy.deepcopy(Vm)
+    q = Fr(bad["V"][0]["data"][1]) + Fr(1, 8)
+    bad["V"][0]["data"][1] = f"{q.numerator}/{q.denominator}"
+    if not compare_value_arrays(Vi, bad, 2)[0]:
+        fails.append("a value off by 1/8 is not flagged by compare_value_arrays")
+    bad = copy.deepcopy(Vm)
+    bad["V"][1]["shape"] = list(reversed(bad["V"][1]["shape"]))
+    if not compare_value_arrays(Vi, bad, 2)[0]:
+        fails.append("a transposed shape is not flagged by compare_value_arrays")
+    # simulation relations
+    fns = ImplFns(mj, jit=True)
+    init = {"s": [Fr(1), Fr(2), Fr(1)], "w": [Fr(1), Fr(2), Fr(1, 2)]}
+    df = fns.simulate(params_impl(P), initial_states=init_impl(mj, init), vf_arr_list=[I.jnp.asarray(v) for v in Vi], seed=1)
+    rows = frame_rows(df, mj, 3)
+    res = check_simulation(mj, P, Vi, rows, init)
+    if res["C02"] or res["C03"] or res["C13"]:
+        return fails
+    for what, mutate in (
+        ("a reported value off by 1/8", lambda rr: rr[0][0].__setitem__("value", rr[0][0]["value"] + 0.125)),
+        ("an off-grid reported choice", lambda rr: rr[0][1]["choices"].__setitem__("c", 0.5)),
+        ("a wrong next state", lambda rr: rr[1][2]["states"].__setitem__("w", rr[1][2]["states"]["w"] + 0.25)),
+        ("a wrong _period", lambda rr: rr[1][0].__setitem__("_period", 0)),
+    ):
+        rr = copy.deepcopy(rows)
+        mutate(rr)
+        res = check_simulation(mj, P, Vi, rr, init)
+        if not (res["C02"] or res["C03"] or res["C13"]):
+            fails.append(f"{what} is not flagged by check_simulation")
+    return fails
